@@ -3,7 +3,7 @@
 # copies it to /verif/seeded/<ID>-<k>/, then runs /verif/check <ID> [more ids in $CHECKS] against /repo with the patch applied.
 set -u
 ID=$1; K=$2; PKGS=$3; CHECKS=${CHECKS:-$ID}
-WT=/tmp/wt-$ID; S=$WT/_seed/$K
+WT=${WT:-/tmp/wt-$ID}; S=$WT/_seed/$K
 export GOFLAGS=-mod=mod GOPROXY=off GOSUMDB=off GOTOOLCHAIN=local
 cd $WT || exit 2
 git checkout -q -- . ; git clean -qfd -e _seed
@@ -33,7 +33,7 @@ echo "--- demo on CHANGED (expect FAIL)"; rundemo | tee /tmp/seed-$ID-$K.chg | t
 rm -f $DEMODIR/$(basename $DEMO)
 echo "--- existing tests on CHANGED (expect ok)"; go test -vet=off -count=1 $PKGS 2>&1 | grep -v "no test files" | grep -v "^ok" | head -10; echo "(end of non-ok lines)"
 git checkout -q -- . ; git clean -qfd -e _seed
-D=/verif/seeded/$ID-$K; mkdir -p $D; cp $S/* $D/
+D=/verif/seeded/$ID-${DEST:-$K}; mkdir -p $D; cp $S/* $D/
 echo "--- checks against /repo with patch"
 git -C /repo apply $S/patch.diff || { echo "patch does not apply to /repo"; exit 2; }
 [ -n "${SKIPCHECK:-}" ] || for c in $CHECKS; do (cd /verif && ./check $c 2>&1 | tail -2); done
